@@ -133,8 +133,8 @@ func (d *c20Deps) of(fn *ssa.Function) c20DepSet {
 				}
 				return
 			}
-			if cc.IsInvoke() {
-				visit(cc.Value)
+			if cc.IsInvoke() || g == nil {
+				visit(cc.Value) // interface receiver; or a function value: a closure's captured variables all count
 			}
 			for _, a := range cc.Args {
 				visit(a)
